@@ -275,7 +275,6 @@ Definition ints (l : list Z) : value := VList (map VInt l).
 Definition deviation_witnesses : list (string * list value) := [
   ("~{~A~^,~}", [ints [1; 2; 3]]);                                   (* caret *)
   ("~A~^ more", [VInt 1]);
-  ("~2R", [VInt 5]);                                                  (* radix ignored *)
   ("~D", [VStr (tx "abc")]);                                          (* non-integer printed with escapes *)
   ("~10,'*D", [VInt 42]);                                             (* quoted parameter that is a directive character *)
   ("~&x", []);                                                        (* fresh line at the start of the output *)
@@ -305,7 +304,6 @@ Proof. vm_compute. reflexivity. Qed.
 (* what the model and the specification say for some of them *)
 Definition deviation_table : list ((string * list value) * (outcome * outcome)) := [
   (("~{~A~^,~}", [ints [1; 2; 3]]), (OText (tx "1,"), OText (tx "1,2,3")));
-  (("~2R", [VInt 5]), (OText (tx "five"), OText (tx "101")));
   (("~D", [VStr (tx "abc")]), (OText (tx """abc"""), OText (tx "abc")));
   (("abc~2,4T|", []), (OText (tx "abc     |"), OText (tx "abc   |")));
   (("~:*~A", [VInt 1]), (OText (tx "nil"), OError));
@@ -407,4 +405,15 @@ Proof.
   destruct (nargs c <=? c_apos c)%Z; [reflexivity|].
   rewrite (english_loop colon z).
   destruct (std_english colon z) as [t|]; unfold pick; cbn [opt_text_eqb]; rewrite ?text_eqb_refl; reflexivity.
+Qed.
+(* ~radix,mincol,padchar,commachar,comma-intervalR (repo_fixes/C15-6: dirR hands over to dirInt): the same for every
+   parameter list that is not empty, every table and every integer argument *)
+Theorem radix_site_coincides : forall T colon at_ p ps c z, arg_at c = Some (VInt z) ->
+  dir_radix true T colon at_ (p :: ps) c = dir_radix false T colon at_ (p :: ps) c.
+Proof.
+  intros T colon at_ p ps c z Ha. unfold dir_radix.
+  destruct (get_int 0 (p :: ps) 10 true) as [r| |]; try reflexivity.
+  destruct ((2 <=? r) && (r <=? 36))%Z eqn:E; [|reflexivity].
+  apply andb_true_iff in E. destruct E as [E1 E2]. apply Z.leb_le in E1. apply Z.leb_le in E2.
+  apply (integer_site_coincides (Z.to_N r) 1 colon at_ (p :: ps) c z); [lia | exact Ha].
 Qed.
